@@ -1,0 +1,81 @@
+package accesscontroller
+
+import (
+	"bytes"
+	"encoding/hex"
+	"fmt"
+
+	logac "berty.tech/go-ipfs-log/accesscontroller"
+	"berty.tech/go-ipfs-log/identityprovider"
+	"github.com/libp2p/go-libp2p/core/crypto"
+)
+
+// VerifyEntryAuthor checks that an entry was really written by the identity
+// it names: the key the entry is signed with must be the public key of that
+// identity, and, for identities of the default "orbitdb" type, the identity's
+// own signatures must bind that public key to the identity id. Without this
+// check anybody could name an authorised writer's id in an entry signed with
+// a key of their own. Any further check is left to the identity provider.
+func VerifyEntryAuthor(entry logac.LogEntry, p identityprovider.Interface) error {
+	if entry == nil {
+		return fmt.Errorf("entry is not defined")
+	}
+
+	identity := entry.GetIdentity()
+	if identity == nil {
+		return fmt.Errorf("entry has no identity")
+	}
+
+	if signed, ok := entry.(interface{ GetKey() []byte }); ok {
+		if len(identity.PublicKey) == 0 || !bytes.Equal(signed.GetKey(), identity.PublicKey) {
+			return fmt.Errorf("entry is not signed with the key of its identity")
+		}
+	}
+
+	if identity.Type == "orbitdb" {
+		if err := verifyOrbitDBIdentity(identity); err != nil {
+			return err
+		}
+	}
+
+	if p == nil {
+		return nil
+	}
+
+	return p.VerifyIdentity(identity)
+}
+
+// verifyOrbitDBIdentity checks the two signatures of an identity created by
+// identityprovider.CreateIdentity with the "orbitdb" provider: the public key
+// signs the id, and the key the id is derived from signs the public key.
+func verifyOrbitDBIdentity(identity *identityprovider.Identity) error {
+	if identity.Signatures == nil {
+		return fmt.Errorf("identity has no signatures")
+	}
+
+	pubKey, err := crypto.UnmarshalSecp256k1PublicKey(identity.PublicKey)
+	if err != nil {
+		return fmt.Errorf("invalid identity public key: %w", err)
+	}
+
+	if ok, err := pubKey.Verify([]byte(identity.ID), identity.Signatures.ID); err != nil || !ok {
+		return fmt.Errorf("identity id is not signed by the identity public key")
+	}
+
+	idBytes, err := hex.DecodeString(identity.ID)
+	if err != nil {
+		return fmt.Errorf("invalid identity id: %w", err)
+	}
+
+	idKey, err := crypto.UnmarshalSecp256k1PublicKey(idBytes)
+	if err != nil {
+		return fmt.Errorf("invalid identity id: %w", err)
+	}
+
+	signed := []byte(hex.EncodeToString(append(append([]byte{}, identity.PublicKey...), identity.Signatures.ID...)))
+	if ok, err := idKey.Verify(signed, identity.Signatures.PublicKey); err != nil || !ok {
+		return fmt.Errorf("identity public key is not signed by the identity id key")
+	}
+
+	return nil
+}
